@@ -2,10 +2,12 @@ package checks
 
 import (
 	"context"
+	"errors"
 	"fmt"
 	"runtime"
 	"strings"
 	"sync"
+	"sync/atomic"
 	"time"
 
 	"github.com/vimeo/dials"
@@ -144,6 +146,9 @@ func monitorState() (string, string) {
 		switch {
 		case strings.Contains(g, "updateSourceValue") && strings.Contains(lines[0], "[chan send"):
 			return "send-in-update", g
+		case strings.Contains(top, "updateSourceValue") && strings.Contains(lines[0], "[chan receive"):
+			// parked in a receive of its own (not inside user code such as Verify: the innermost frame is dials')
+			return "receive-in-update", g
 		case strings.Contains(g, "submitEvent") && (strings.Contains(lines[0], "[select") || strings.Contains(lines[0], "[chan send")):
 			return "blocked-in-submit", g
 		case strings.Contains(top, ").monitor(") && strings.Contains(lines[0], "[select"):
@@ -160,8 +165,8 @@ func stuckVerdict(w *fw.Worker, i int, what string, desc any) {
 	s1, d1 := monitorState()
 	time.Sleep(300 * time.Millisecond)
 	s2, _ := monitorState()
-	if s1 == s2 && (s1 == "idle" || s1 == "send-in-update" || s1 == "blocked-in-submit") {
-		key := map[string]string{"idle": "call-never-answered:monitor-idle", "send-in-update": "monitor-blocked-on-abandoned-caller", "blocked-in-submit": "monitor-blocked-submitting-callback-event"}[s1]
+	if s1 == s2 && (s1 == "idle" || s1 == "send-in-update" || s1 == "receive-in-update" || s1 == "blocked-in-submit") {
+		key := map[string]string{"idle": "call-never-answered:monitor-idle", "send-in-update": "monitor-blocked-on-abandoned-caller", "receive-in-update": "monitor-blocked-in-a-receive-while-installing", "blocked-in-submit": "monitor-blocked-submitting-callback-event"}[s1]
 		w.Violation(i, key, what+": the call did not return; the monitor goroutine is "+s1+" in two dumps 300ms apart", map[string]any{"case": desc, "goroutine": fw.TrimStack(d1)})
 		return
 	}
@@ -275,11 +280,86 @@ func c07QueueFull(w *fw.Worker, i int, r *fw.Rand) {
 	}
 }
 
+// c07EventsPollers: consumers poll Events() while two sources make blocking reports back to back; every report of a
+// valid value must return nil, and the view must then contain it.
+func c07EventsPollers(w *fw.Worker, i int, r *fw.Rand) {
+	desc := map[string]any{"mode": "events-pollers"}
+	w.BeginDesc(i, "events-pollers")
+	e, err := conc.Start(context.Background(), r.U64(), conc.Opts{NSrc: 2}, nil)
+	if err != nil {
+		w.Violation(i, "config-failed", err.Error(), desc)
+		return
+	}
+	defer e.Stop()
+	ctx := e.S.Ctx
+	stop := make(chan struct{})
+	defer close(stop)
+	for p := 0; p < 2; p++ {
+		every := 3 + r.Intn(5)
+		go func() {
+			for k := 0; ; k++ {
+				select {
+				case <-stop:
+					return
+				case <-e.D.Events():
+				default:
+				}
+				if k%every == 0 {
+					runtime.Gosched()
+				}
+			}
+		}()
+	}
+	per := w.Pick(2500, 30000)
+	type bad struct {
+		k   int
+		err error
+	}
+	fails := make(chan bad, 2)
+	var wg sync.WaitGroup
+	var halt atomic.Bool
+	for s := 0; s < 2; s++ {
+		wg.Add(1)
+		go func(s int) {
+			defer wg.Done()
+			for k := 0; k < per && !halt.Load(); k++ {
+				l := e.NewLayer()
+				l.Set[k%4], l.Set[2] = true, true
+				rctx, cancel := context.WithTimeout(ctx, 5*time.Second)
+				rerr := e.Srcs[s].Report(rctx, l, true)
+				cancel()
+				if rerr != nil {
+					halt.Store(true)
+					fails <- bad{k, rerr}
+					return
+				}
+			}
+		}(s)
+	}
+	wg.Wait()
+	w.Count("reports_under_events_pollers", int64(2*per))
+	select {
+	case b := <-fails:
+		if errors.Is(b.err, context.DeadlineExceeded) {
+			stuckVerdict(w, i, fmt.Sprintf("blocking report %d of a valid value did not return within 5s while Events() is being polled", b.k), desc)
+		} else {
+			w.Violation(i, "valid-report-failed-under-events-pollers", b.err.Error(), desc)
+		}
+		return
+	default:
+	}
+	w.Distinct("events-pollers")
+}
+
 func runC07(w *fw.Worker) {
 	placements := []string{"before", "in-verify", "at-reply", "after", "random", "none"}
 	w.Cases(func(i int, r *fw.Rand) {
 		if i%40 == 13 {
 			c07QueueFull(w, i, r)
+			return
+		}
+		if i%40 == 27 {
+			c07EventsPollers(w, i, r)
 			return
 		}
 		placement := placements[(i+w.Shard)%len(placements)]
@@ -315,6 +395,26 @@ func runC07(w *fw.Worker) {
 		e.ExtraHook = func(name string, _ context.Context, args []any) { gates.OnHook(name, args) }
 		e.Jitter = r.Range(0, 30)
 		ctx := e.S.Ctx
+		if r.Chance(50) {
+			// consumers that poll Events() rather than sit in the receive
+			stopPoll := make(chan struct{})
+			defer close(stopPoll)
+			for p := 0; p < 2; p++ {
+				go func() {
+					for k := 0; ; k++ {
+						select {
+						case <-stopPoll:
+							return
+						case <-e.D.Events():
+						default:
+						}
+						if k%5 == 0 {
+							runtime.Gosched()
+						}
+					}
+				}()
+			}
+		}
 		var sig strings.Builder
 		fmt.Fprintf(&sig, "%s|blank=%v|", placement, useBlank)
 		ctxEnded := 0
